@@ -25,7 +25,7 @@ arbitrary nesting.) -/
 theorem wf_no_illegal_machine (env : Env) (hch : ChooseOK env) (fuel : Nat) (m input ctx : Json)
     (h : WF m = true) : illRun env fuel m input ctx = false := by
   simp only [WF, Bool.and_eq_true] at h
-  obtain ⟨s, kvs, hs, hk, hdef, hw⟩ := wfBranch_inv h.1
+  obtain ⟨s, kvs, hs, hk, hdef, hw⟩ := wfBranch_inv h.1.1
   simp only [illRun, hs, hk]
   exact (safe_all env hch fuel).from_ _ _ _ _ _ _ ⟨_, hw⟩ hdef
 
@@ -123,7 +123,7 @@ theorem wf_start_defined (m : Json) (h : WF m = true) :
     ∃ start kvs state, fldStr m "StartAt" = some start ∧ fld m "States" = some (.obj kvs) ∧
       objGet kvs start = some state ∧ stateType state ∈ knownTypes := by
   simp only [WF, Bool.and_eq_true] at h
-  obtain ⟨s, kvs, hs, hk, hdef, hw⟩ := wfBranch_inv h.1
+  obtain ⟨s, kvs, hs, hk, hdef, hw⟩ := wfBranch_inv h.1.1
   obtain ⟨state, hst⟩ := defined_get hdef
   have hws := wfScope_get hw hst
   cases hsz : m.size with
@@ -153,6 +153,12 @@ theorem nonobject_rejected (j : Json) (h : ∀ kvs, j ≠ .obj kvs) : WF j = fal
 
 /-- well-formed definitions have no two states of the same name, at any nesting level -/
 theorem wf_unique_names (m : Json) (h : WF m = true) : nodup (namesIn m.size m) = true := by
+  simp only [WF, Bool.and_eq_true] at h
+  exact h.1.2
+
+/-- a well-formed definition's execution time limit, when given, is a number, and the `MaxConcurrency` of each
+of its Map states a non-negative integer (what the engine refuses to interpret otherwise) -/
+theorem wf_time_limit_is_number (m : Json) (h : WF m = true) : timeoutOk m = true := by
   simp only [WF, Bool.and_eq_true] at h
   exact h.2
 
